@@ -16,6 +16,8 @@ package main
 
 import (
 	"fmt"
+	goparser "go/parser"
+	gotoken "go/token"
 	"strconv"
 	"strings"
 
@@ -82,12 +84,25 @@ type progObs struct {
 	origError string
 }
 
+// goAccepts: the statement list is syntactically valid Go (inside a function body). For the constructs the slot
+// and structure programs are built from (no types, labels, go/defer), Tengo's statement grammar contains Go's:
+// what Go's parser accepts, Tengo must accept as well. Tengo-only forms are simply not judged by this.
+func goAccepts(src string) bool {
+	_, err := goparser.ParseFile(gotoken.NewFileSet(), "p.go", "package p\nfunc _() {\n"+src+"\n}\n", goparser.SkipObjectResolution)
+	return err == nil
+}
+
 // runProg checks one program text.
 func runProg(src string) (fails []fail, obs progObs) {
 	f1, sf1, err := parseSrc(src)
 	if err != nil {
 		obs.class = "original-does-not-parse"
 		obs.origError = firstLine(err.Error())
+		if goAccepts(src) {
+			obs.class = "go-valid-statement-rejected"
+			fails = append(fails, fail{"accept/go-valid-statements-rejected",
+				fmt.Sprintf("%q is rejected (%s) although it is built only from forms Tengo shares with Go, whose parser accepts it", src, obs.origError)})
+		}
 		return
 	}
 	printed := f1.String()
